@@ -42,14 +42,14 @@ PROPS = {
     },
     "C05": {
         "module": "Cdecao.Props.C05",
-        "extra_modules": ["Cdecao.Props.C05E2E"],
+        "extra_modules": ["Cdecao.Props.C05E2E", "Cdecao.Props.Main"],
         "theorems": ["Props.C05_regs", "Props.C05_courses", "Props.C05_no_cancelled_assignment", "Props.C05_consistent", "Props.C05_consistent_anyKeys",
                      "Props.C05_end_to_end", "Props.C05_end_to_end_anyKeys", "Props.C05_total_end_to_end", "Props.C05_total_from_start", "Props.cde_finished_done"],
         "streams": ["e2e-cde", "cdedb-read", "node", "node-rooms"],
     },
     "C06": {
         "module": "Cdecao.Props.C06",
-        "extra_modules": ["Cdecao.Props.EngineTie", "Cdecao.Props.C18E2E"],
+        "extra_modules": ["Cdecao.Props.EngineTie", "Cdecao.Props.C18E2E", "Cdecao.Props.Main"],
         "theorems": ["Props.C06", "Props.C06_node", "Props.C06_exec"],
         "streams": ["node-rooms", "solve-rooms", "e2e-cde", "cli-simple", "node-exhaustive"],
     },
@@ -80,7 +80,7 @@ PROPS = {
     },
     "C11": {
         "module": "Cdecao.Props.C11",
-        "extra_modules": ["Cdecao.Props.C05E2E"],
+        "extra_modules": ["Cdecao.Props.C05E2E", "Cdecao.Props.Main"],
         "theorems": ["Props.C11_max", "Props.C11_min", "Props.C11_min_le_max", "Props.C11_fixed", "Props.C11_fixed_written", "Props.C11_consistent", "Props.C11_end_to_end"],
         "streams": ["cdedb-read", "e2e-cde", "node", "node-rooms"],
     },
@@ -91,12 +91,13 @@ PROPS = {
     },
     "C13": {
         "module": "Cdecao.Props.C13",
-        "extra_modules": ["Cdecao.Props.C13OneWorker"],
+        "extra_modules": ["Cdecao.Props.C13OneWorker", "Cdecao.Props.Main"],
         "theorems": ["Props.C13_read", "Props.C13_toplevel", "Props.C13_one_worker_step", "Props.C13_one_worker_never_waits", "Props.C13_one_worker_outcome"],
         "streams": ["cdedb-pairs", "e2e-cde"],
     },
     "C14": {
         "module": "Cdecao.Props.C14",
+        "extra_modules": ["Cdecao.Props.Main"],
         "theorems": ["Props.C14_entries", "Props.C14_entries_sorted", "Props.C14_array"],
         "streams": ["cli-simple"],
     },
@@ -121,7 +122,7 @@ PROPS = {
     },
     "C18": {
         "module": "Cdecao.Props.C18",
-        "extra_modules": ["Cdecao.Props.C18E2E"],
+        "extra_modules": ["Cdecao.Props.C18E2E", "Cdecao.Props.Main"],
         "theorems": ["Props.C18_sound", "Props.C18_nonempty", "Props.C18_dedup"],
         "streams": ["rooms", "cli-simple", "e2e-cde"],
     },
@@ -166,7 +167,7 @@ LEVELS = {
             "note": _NODE + " InstOK2 adds: no instructor listed twice (both readers guarantee it), penalties <= 50000."},
     "C09": {"text": "Theorems Props.C09 / C09_none_iff: for arbitrary node solvers with Bounded trees, every T >= 1 and schedule, the finished engine holds a solution of maximal score, or none iff the tree has no feasible node. Real runs on random synthetic trees under seeded schedules are replayed through the model and compared with the max leaf.",
             "note": _ENG},
-    "C10": {"text": "Theorems Props.C10_node / C10_tree: no panic site of run_bab_node (11 sites + the Hungarian routine's own) is reachable at any node of the search tree of a well-formed instance with num_min <= num_max. Score arithmetic (Props/C10U32.lean): C10_scores_fit_u32 — for a valid instance with (places + participants)·50000 < 2^32 every score the node solver returns, every queue entry and the incumbent score of every reachable engine configuration is below 2^32 (the u32 `Score` cannot overflow), C10_quality_fits(_valid) — the theoretical maximum and every assignment score are at most (participants with choices)·50000, so the usize subtraction of the quality figures cannot underflow. Program level: Props.C10_main (a run that reaches the solver ends, without output faults, with status 0 and a complete file or status 1 and no file touched), C10_main_threads (never zero workers). main.rs as a whole is modelled (Model/Main.lean: MainM.front = every stage before the solver with its exit status, MainM.run = the program as a function of options, environment, solver verdict and output faults); the stage order of main.rs is re-extracted from the source on every run (Props.main_skeleton_tie) and the stream cli-main runs option/environment/document combinations with zero to three things wrong at once through the real binary against MainM.front (exit status, or the participant/course counts logged before the solver).",
+    "C10": {"text": "Theorems Props.C10_node / C10_tree: no panic site of run_bab_node (11 sites + the Hungarian routine's own) is reachable at any node of the search tree of a well-formed instance with num_min <= num_max. Score arithmetic (Props/C10U32.lean): C10_scores_fit_u32 — for a valid instance with (places + participants)·50000 < 2^32 every score the node solver returns, every queue entry and the incumbent score of every reachable engine configuration is below 2^32 (the u32 `Score` cannot overflow), C10_quality_fits(_valid) — the theoretical maximum and every assignment score are at most (participants with choices)·50000, so the usize subtraction of the quality figures cannot underflow. Program level: Props.C10_main (a run that reaches the solver ends, without output faults, with status 0 and a complete file or status 1 and no file touched), C10_main_threads (never zero workers). main.rs as a whole is modelled (Model/Main.lean: MainM.front = every stage before the solver with its exit status, MainM.run = the program as a function of options, environment, solver verdict and output faults); the stage order of main.rs and its command-line definition (clap builder chains per argument, help texts stripped) are re-extracted from the source on every run (Props.main_skeleton_tie, Props.main_clap_tie) and the stream cli-main runs option/environment/document combinations with zero to three things wrong at once through the real binary against MainM.front (exit status, or the participant/course counts logged before the solver).",
             "note": _NODE + " f32 behaviour is a parameter (after fix F9 totality needs no float property)."},
     "C11": {"text": "Props.C11_end_to_end (reader ∘ solver ∘ writer: the clauses below hold for the file written from the incumbent of every reachable configuration of the search on every accepted export, all room lists, thread counts and schedules). Props.C11_consistent (assembled): ignored pre-assigned registrations are never named in the file; a course with ignored people is fixed, treated as taking place and written active; original minimum met and original maximum respected counting both groups (ignoredCount defined on the EXPORT); with --ignore-cancelled no cancelled course of the track appears in the file at all. Arithmetic and writer theorems about adapt_course_for_invisible_participants (places reserved: max counting pre-assigned, min counting both groups, course fixed, fixed course written active) + exact correspondence of the reader (incl. invisible counts, hidden names, external quality data) on generated exports with arbitrary existing assignments, all four option combinations, and the end-to-end consistency oracle with both-groups counts through the real binary.",
             "note": "Model CD.read/CD.adapt; the room offset change is applied natively (f32) by the driver. Room fitting with both groups rests on the offset correspondence (f32) and C06."},
@@ -176,9 +177,9 @@ LEVELS = {
             "note": "Model CD.read; the relation Agree is phrased by equality of views, the nested set-a-member corollaries are covered by congruence lemmas and a worked example. Determinism of the engine with one worker given the same problem is by the engine model being a function of the pop policy (BinaryHeap order is deterministic for equal inputs; trusted)."},
     "C14": {"text": "Theorems Props.C14_entries / C14_entries_sorted (the listing of a course = exactly the participants assigned to it, in order, flagged iff instructor) and C14_array (one entry per participant, null or valid index, all T and schedules); the real binary's --print output is compared byte for byte with the Lean rendering LM.render, and the output file's array/keys are checked, incl. hidden names, non-ASCII names and a stale longer output file.",
             "note": "io.rs format_assignment is modelled by LM.render; the possible-rooms strings are taken from the real output and checked by C18."},
-    "C15": {"text": "Theorem Props.C15_accept_sound: whatever the simple-format reader + validation accepts is an instance with all indices in range, num_min <= num_max and at least one participant (the premises of the solver's totality theorem C10); the real binary is run on single-field corruptions of valid simple and CdE documents, bad option values and raw garbage: exit status in {64,65,66,2}, no 'panicked', no output file; accept/refuse is compared with the Lean models SM.accepts and CD.read. The two room inputs are modelled too (RI.parseRoomsStr for --rooms, RI.kindsOf for --rooms-file, from the JSON value on): theorems C15_rooms_str / C15_rooms_str_refuse / C15_rooms_file / C15_rooms_file_refuse / C15_rooms_kind (all-or-nothing: accepted ⇒ one entry per item, each the reading of that item and within usize; one bad item refuses the whole input; the split loses or merges nothing, splitComma_spec) and accept/refuse correspondence with the real binary on 20 kinds of string deviations and 24 kinds of file deviations. Program level: Props.C15_main_refused (a run refused before the solver ends with 64/65/66, the solver is not called, no output file is created or touched, nothing is printed), main_front_codes, C15_main_zero_threads / _both_rooms / _rooms_unparsable / _rooms_file_bad / _input_bad / _simple_refused / _cde_refused (each kind of malformed input the property names is refused), C15_main_simple / C15_main_cde (what reaches the solver is exactly what the reader models accept), main_cde_consistent. main.rs as a whole is modelled (Model/Main.lean: MainM.front = every stage before the solver with its exit status, MainM.run = the program as a function of options, environment, solver verdict and output faults); the stage order of main.rs is re-extracted from the source on every run (Props.main_skeleton_tie) and the stream cli-main runs option/environment/document combinations with zero to three things wrong at once through the real binary against MainM.front (exit status, or the participant/course counts logged before the solver).",
+    "C15": {"text": "Theorem Props.C15_accept_sound: whatever the simple-format reader + validation accepts is an instance with all indices in range, num_min <= num_max and at least one participant (the premises of the solver's totality theorem C10); the real binary is run on single-field corruptions of valid simple and CdE documents, bad option values and raw garbage: exit status in {64,65,66,2}, no 'panicked', no output file; accept/refuse is compared with the Lean models SM.accepts and CD.read. The two room inputs are modelled too (RI.parseRoomsStr for --rooms, RI.kindsOf for --rooms-file, from the JSON value on): theorems C15_rooms_str / C15_rooms_str_refuse / C15_rooms_file / C15_rooms_file_refuse / C15_rooms_kind (all-or-nothing: accepted ⇒ one entry per item, each the reading of that item and within usize; one bad item refuses the whole input; the split loses or merges nothing, splitComma_spec) and accept/refuse correspondence with the real binary on 20 kinds of string deviations and 24 kinds of file deviations. Program level: Props.C15_main_refused (a run refused before the solver ends with 64/65/66, the solver is not called, no output file is created or touched, nothing is printed), main_front_codes, C15_main_zero_threads / _both_rooms / _rooms_unparsable / _rooms_file_bad / _input_bad / _simple_refused / _cde_refused (each kind of malformed input the property names is refused), C15_main_simple / C15_main_cde (what reaches the solver is exactly what the reader models accept), main_cde_consistent. main.rs as a whole is modelled (Model/Main.lean: MainM.front = every stage before the solver with its exit status, MainM.run = the program as a function of options, environment, solver verdict and output faults); the stage order of main.rs and its command-line definition (clap builder chains per argument, help texts stripped) are re-extracted from the source on every run (Props.main_skeleton_tie, Props.main_clap_tie) and the stream cli-main runs option/environment/document combinations with zero to three things wrong at once through the real binary against MainM.front (exit status, or the participant/course counts logged before the solver).",
             "note": "From the JSON value on; bytes -> value (serde_json), option parsing (clap) are only enumerated. The rooms file goes through serde's derived visitor, whose positional (array of exactly three) form of a room kind is modelled and generated; duplicate member names inside one JSON object are not generated."},
-    "C16": {"text": "Theorems Props.C16 / C16_faults about the output stage's decision logic; the fault matrix {ok, ENOENT, EISDIR, ENAMETOOLONG, ENOTDIR, /dev/full, RLIMIT_FSIZE partial write, stale longer file} x {simple, cde} x {--print} is run exhaustively on the real binary and compared with the model (exit status, listing still printed, file complete iff exit 0). Program level: Props.C16_main (status 0 with an output path ⇒ solver ran, file created and written completely), C16_main_faults. main.rs as a whole is modelled (Model/Main.lean: MainM.front = every stage before the solver with its exit status, MainM.run = the program as a function of options, environment, solver verdict and output faults); the stage order of main.rs is re-extracted from the source on every run (Props.main_skeleton_tie) and the stream cli-main runs option/environment/document combinations with zero to three things wrong at once through the real binary against MainM.front (exit status, or the participant/course counts logged before the solver).",
+    "C16": {"text": "Theorems Props.C16 / C16_faults about the output stage's decision logic; the fault matrix {ok, ENOENT, EISDIR, ENAMETOOLONG, ENOTDIR, /dev/full, RLIMIT_FSIZE partial write, stale longer file} x {simple, cde} x {--print} is run exhaustively on the real binary and compared with the model (exit status, listing still printed, file complete iff exit 0). Program level: Props.C16_main (status 0 with an output path ⇒ solver ran, file created and written completely), C16_main_faults. main.rs as a whole is modelled (Model/Main.lean: MainM.front = every stage before the solver with its exit status, MainM.run = the program as a function of options, environment, solver verdict and output faults); the stage order of main.rs and its command-line definition (clap builder chains per argument, help texts stripped) are re-extracted from the source on every run (Props.main_skeleton_tie, Props.main_clap_tie) and the stream cli-main runs option/environment/document combinations with zero to three things wrong at once through the real binary against MainM.front (exit status, or the participant/course counts logged before the solver).",
             "note": "Runtime behaviour (which errno, short writes) cannot be exhibited by the model: proof of the decision logic + fault enumeration (partial by nature). Running as root, a read-only directory is not a fault."},
     "C18": {"text": "End to end (Props/C18E2E.lean): C18_end_to_end / C18_end_to_end_meaning — whatever the parallel search REPORTS under a room list (any thread count, schedule, float behaviour) passes the room check (C06_exec), the room check implies the premise of the listing theorems (roomOKb_fits), hence every room listed for a course of a reported solution is large enough, exists and occurs in a complete allocation of distinct rooms, and every course that takes place is offered a room. Theorems Props.C18_sound / C18_nonempty / C18_dedup for the double loop RS.possible under ANY sorting permutation of equally sized courses; exact correspondence (strings) of get_course_room_size_list / get_course_room_kind_names with the Lean model given the rank order the real unstable sort produced, on room-feasible assignments with shuffled room lists, duplicate capacities, fewer/more rooms than courses, quantity-0 kinds; the executable specification (usable room = large enough + remaining courses still fit) is evaluated on every listing, also on the real binary's --print output.",
             "note": "io/rooms.rs is modelled by RS.possible / RM.possibleByCourse / RM.kindNames / RM.readKinds (exact strings under the rank order the real unstable sort produced). 'A course that takes place' is read as 'a course with positive effective size' in the non-emptiness clause (DESIGN §7 C18: with fewer rooms than courses the unchanged code lists nothing for a zero-size course, rightly)."},
